@@ -8,7 +8,12 @@
 package simpackages
 
 import (
+	"go/ast"
+	"go/parser"
+	"go/token"
+	"path/filepath"
 	"strings"
+	"sync"
 
 	"golang.org/x/tools/go/packages"
 )
@@ -66,7 +71,137 @@ var Loads int
 // LastLoad is the list of package paths returned by the most recent Load.
 var LastLoad []string
 
+// Permute, when set, turns Load into a fresh (un-memoised) load in which the
+// files of each root package are handed to the parser — and therefore
+// registered in the token.FileSet — in the order the hook returns (a
+// permutation of 0..n-1 over the package's file list). This puts the real
+// loader's parse-order nondeterminism (it parses files in concurrent
+// goroutines, so FileSet bases are assigned in arrival order) behind a seam the
+// plan decides.
+var Permute func(pkgPath string, files []string) []int
+
+// FreshLoads counts loads done with a file-order permutation.
+var FreshLoads int
+
+func freshLoad(cfg *Config, pattern string, hook func(string, []string) []int) ([]*Package, error) {
+	// learn the file list from the memoised ordinary load
+	base, err := memoLoad(cfg, pattern)
+	if err != nil || len(base) == 0 {
+		return base, err
+	}
+	order := map[string]int{} // file -> position in the enforced order
+	for _, pk := range base {
+		files := append([]string(nil), pk.CompiledGoFiles...)
+		for pos, idx := range hook(pk.PkgPath, files) {
+			if idx >= 0 && idx < len(files) {
+				order[filepath.Clean(files[idx])] = pos
+			}
+		}
+	}
+	var mu sync.Mutex
+	cond := sync.NewCond(&mu)
+	next := 0
+	c := *cfg
+	c.Fset = token.NewFileSet()
+	c.ParseFile = func(fset *token.FileSet, filename string, src []byte) (*ast.File, error) {
+		pos, ok := order[filepath.Clean(filename)]
+		if !ok {
+			return parser.ParseFile(fset, filename, src, parser.AllErrors|parser.ParseComments)
+		}
+		mu.Lock()
+		for next != pos {
+			cond.Wait()
+		}
+		f, err := parser.ParseFile(fset, filename, src, parser.AllErrors|parser.ParseComments)
+		next++
+		cond.Broadcast()
+		mu.Unlock()
+		return f, err
+	}
+	FreshLoads++
+	return packages.Load(&c, pattern)
+}
+
+func memoLoad(cfg *Config, p string) ([]*Package, error) {
+	key := cfg.Dir + "\x00" + p + "\x00" + strings.Join(cfg.BuildFlags, " ")
+	e, ok := memo[key]
+	if !ok {
+		c := *cfg
+		pk, err := packages.Load(&c, p)
+		e = memoEntry{pk, err}
+		memo[key] = e
+		Loads++
+	}
+	return e.pkgs, e.err
+}
+
+// universes: per module directory, one real multi-pattern load whose import
+// graph is shared by all of its root packages (exactly as in a real
+// multi-pattern invocation, where co-translated packages see the same
+// *Package nodes for common dependencies).
+var universes = map[string]map[string]*Package{}
+var universePatterns = map[string][]string{}
+
+// SetUniverse declares the patterns of dir that may be requested together.
+func SetUniverse(dir string, patterns []string) { universePatterns[dir] = patterns }
+
+func universe(cfg *Config) map[string]*Package {
+	if u, ok := universes[cfg.Dir]; ok {
+		return u
+	}
+	pats := universePatterns[cfg.Dir]
+	if len(pats) == 0 {
+		return nil
+	}
+	c := *cfg
+	pkgs, err := packages.Load(&c, pats...)
+	Loads++
+	u := map[string]*Package{}
+	if err == nil {
+		byDir := map[string]*Package{}
+		for _, pk := range pkgs {
+			if len(pk.GoFiles) > 0 {
+				byDir[filepath.Dir(pk.GoFiles[0])] = pk
+			} else if len(pk.CompiledGoFiles) > 0 {
+				byDir[filepath.Dir(pk.CompiledGoFiles[0])] = pk
+			}
+		}
+		for _, p := range pats {
+			if pk, ok := byDir[filepath.Clean(filepath.Join(cfg.Dir, p))]; ok {
+				u[p] = pk
+			}
+		}
+	}
+	universes[cfg.Dir] = u
+	return u
+}
+
 func Load(cfg *Config, patterns ...string) ([]*Package, error) {
+	if Permute == nil {
+		if u := universe(cfg); u != nil {
+			var out []*Package
+			seen := map[*Package]bool{}
+			all := true
+			for _, p := range patterns {
+				pk, ok := u[p]
+				if !ok {
+					all = false
+					break
+				}
+				if !seen[pk] {
+					seen[pk] = true
+					out = append(out, pk)
+				}
+			}
+			if all && len(patterns) > 0 {
+				LastLoad = nil
+				for _, pk := range out {
+					LastLoad = append(LastLoad, pk.PkgPath)
+				}
+				return out, nil
+			}
+		}
+	}
 	var out []*Package
 	seen := map[*Package]bool{}
 	LastLoad = nil
@@ -74,19 +209,17 @@ func Load(cfg *Config, patterns ...string) ([]*Package, error) {
 		patterns = []string{"."}
 	}
 	for _, p := range patterns {
-		key := cfg.Dir + "\x00" + p + "\x00" + strings.Join(cfg.BuildFlags, " ")
-		e, ok := memo[key]
-		if !ok {
-			c := *cfg
-			pk, err := packages.Load(&c, p)
-			e = memoEntry{pk, err}
-			memo[key] = e
-			Loads++
+		var pkgs []*Package
+		var err error
+		if Permute != nil {
+			pkgs, err = freshLoad(cfg, p, Permute)
+		} else {
+			pkgs, err = memoLoad(cfg, p)
 		}
-		if e.err != nil {
-			return nil, e.err
+		if err != nil {
+			return nil, err
 		}
-		for _, pk := range e.pkgs {
+		for _, pk := range pkgs {
 			if !seen[pk] {
 				seen[pk] = true
 				out = append(out, pk)
